@@ -16,7 +16,7 @@ THEOREMS = [
     "C28_add_scope_eq", "C28_add_file_eq", "C28_add_deleted_eq", "C28_add_dir_eq", "C28_add_all_eq",
     "C28_rm_dir_eq", "C28_clean_nod_eq_partial",
     "C28_add_glob_eq", "C28_rm_glob_eq", "C28_rm_glob_missing_dir_refuted",
-    "C28_tree_order", "C28_base_name_compare",
+    "C28_tree_order", "C28_base_name_compare", "C28_write_tree_id_flat_partial",
     "C28_commit_head", "C28_commit_head_update", "C28_commit_merge_head_refuted", "C28_commit_amend_merge_refuted",
 ]
 MODEL_FILES = ["Status.v", "IndexOps.v", "CommitHead.v", "WriteTree.v", "TreeObj.v", "IndexGlob.v"]
